@@ -485,6 +485,7 @@ expandfunc(struct macro *m)
 	struct array str, tok;
 	size_t i, depth, paren;
 	struct token *t;
+	bool space = false;
 
 	/* read macro arguments */
 	paren = 0;
@@ -514,8 +515,14 @@ expandfunc(struct macro *m)
 				if (p->flags & PARAMSTR)
 					stringize(&str, t);
 			}
-			if (p->flags & PARAMTOK && !expand(t)) {
+			if (t->kind == TNEWLINE) {
+				/* a newline in an argument is ordinary white space (C11 6.10.3p10) */
+				space = true;
+			} else if (p->flags & PARAMTOK && !expand(t)) {
 				arrayaddbuf(&tok, t, sizeof(*t));
+				if (space)
+					((struct token *)arraylast(&tok, sizeof(*t)))->space = true;
+				space = false;
 				++arg[i].ntoken;
 			}
 			t = rawnext();
